@@ -143,6 +143,14 @@ def add_requests(rng, cfg, tier):
     pos = [[], [], []]
     pos[0] = [0, S // 2]
     add(dict(NOREQ, pos=pos, val=[1, thr, "gt"]), kind="position+value", pos=pos, var=c["hydro"][0], thr=thr, cmp="gt")
+    if L >= 2:
+        for _ in range(2 if c.get("hilbert3") else 1):
+            pos = [[], [], []]
+            for d in range(c["ndim"]):
+                lo = 2 * rng.randint(0, S // 2 - 1)
+                pos[d] = [lo, 2 * rng.randint(lo // 2 + 1, min(S // 2, lo // 2 + 2))]
+            k = rng.randint(1, L - 1)
+            add(dict(NOREQ, pos=pos, lv=[1, k]), kind="position+level", pos=pos, form="le", k=k)
     # explicit cpu lists
     if c["ncpu"] > 1:
         sub = sorted(rng.sample(range(1, c["ncpu"] + 1), rng.randint(1, c["ncpu"] - 1)))
@@ -226,7 +234,7 @@ def hilbert3(n, seed, tier):
     out = []
     for _ in range(n):
         levelmax = rng.choice([2, 3] if tier == "quick" else [2, 3, 3, 4])
-        ncpu = rng.choice([2, 3, 4, 5])
+        ncpu = rng.choice([2, 3, 4, 5, 8, 16])
         KB = levelmax + 1
         tot = 8 ** KB
         # bound keys: random cuts, cuts at / next to key-block boundaries, empty domains
